@@ -187,11 +187,11 @@ Qed.
 
 (* ================================================================ hasDotgit *)
 Lemma has_dotgit_refused n :
-  is_bytes n = true -> wf_utf8 n = true -> tlacks 0 n = true -> tlacks 47 n = true ->
+  is_bytes n = true -> utf8_guard n = true -> tlacks 0 n = true -> tlacks 47 n = true ->
   valid_tree_path n = true -> git_has_dotgit n = false.
 Proof.
   intros HB HW H0 H47 V. pose proof (valid_parts n V) as VP.
-  unfold git_has_dotgit. rewrite <- (hfs_dot_eq_git n N_git HB HW H0 H47).
+  unfold git_has_dotgit. rewrite <- (hfs_dot_eq_git2 n N_git HB HW H0 H47).
   destruct (is_hfs_dot n N_git) eqn:HF.
   { exfalso. destruct (hfs_dot_nosep n N_git eq_refl HF) as [N NE].
     assert (SE : seg n <> []) by now rewrite seg_nosep.
@@ -221,12 +221,12 @@ Definition ntfs_gitmodules_after_backslash (n : bytes) : bool :=
 
 (* git's verdict on a name, in go-git's terms *)
 Lemma dotgitmodules_eq n :
-  is_bytes n = true -> wf_utf8 n = true -> tlacks 0 n = true -> tlacks 47 n = true ->
+  is_bytes n = true -> utf8_guard n = true -> tlacks 0 n = true -> tlacks 47 n = true ->
   git_is_dotgitmodules n =
   is_hfs_dot n N_gitmodules || is_ntfs_dot n N_gitmodules S_gi7eba || ntfs_gitmodules_after_backslash n.
 Proof.
   intros HB HW H0 H47. unfold git_is_dotgitmodules, ntfs_gitmodules_after_backslash.
-  rewrite <- (hfs_dot_eq_git n N_gitmodules HB HW H0 H47), <- (ntfs_gitmodules_eq n HB H0).
+  rewrite <- (hfs_dot_eq_git2 n N_gitmodules HB HW H0 H47), <- (ntfs_gitmodules_eq n HB H0).
   f_equal. apply existsb_ext_in. intros r Hr. destruct (after_bs_inv n r Hr) as [pre ->].
   symmetry. apply ntfs_gitmodules_eq.
   - rewrite is_bytes_app in HB. apply andb_true_iff in HB as [_ HB]. now apply is_bytes_cons in HB.
@@ -240,7 +240,7 @@ Proof.
 Qed.
 
 Lemma dotgitmodules_symlink n :
-  is_bytes n = true -> wf_utf8 n = true -> tlacks 0 n = true -> tlacks 47 n = true -> tlacks 92 n = true ->
+  is_bytes n = true -> utf8_guard n = true -> tlacks 0 n = true -> tlacks 47 n = true -> tlacks 92 n = true ->
   git_is_dotgitmodules n = true -> dot_symlink_name n = true.
 Proof.
   intros HB HW H0 H47 H92. rewrite (dotgitmodules_eq n HB HW H0 H47).
@@ -267,10 +267,11 @@ Proof.
   apply orb_false_iff in Hacc as [_ Hv]. constructor; [now apply (validate_entry_link seen prev)|now apply IH in H].
 Qed.
 
-(* the guard: the name is a well-formed UTF-8 byte string and, for a symlink, no
+(* the guard: the name is a byte string, well-formed UTF-8 if it starts like a
+   dot-file (HFS+-ignorable code points skipped), and, for a symlink, no
    suffix that follows a backslash is an NTFS variant of .gitmodules *)
 Definition name_guard (e : tentry) : bool :=
-  is_bytes (t_name e) && wf_utf8 (t_name e) &&
+  is_bytes (t_name e) && utf8_guard (t_name e) &&
   (negb (t_mode e =? fmode_Symlink)%Z || negb (ntfs_gitmodules_after_backslash (t_name e))).
 
 Lemma symlink_mode m : In m valid_modes -> (Z.land m 61440 =? 40960)%Z = (m =? fmode_Symlink)%Z.
